@@ -34,7 +34,7 @@ Fixpoint noexit_expr (k : nat) (x : expr) {struct k} : bool :=
   | O => false
   | S k =>
       match x with
-      | EInt _ _ | EBool _ _ | ERead _ _ => true
+      | EInt _ _ | EBool _ _ | EStr _ _ | ERead _ _ => true
       | EBinOp op a b _ => frag_binop op && noexit_expr k a && noexit_expr k b
       | EUniOp _ a _ => noexit_expr k a
       | ECall (ERead _ _) [a] _ => noexit_expr k a
@@ -75,7 +75,7 @@ Fixpoint frag_expr (fl : list (N * nat)) (k : nat) (sc : list N) (x : expr) {str
   | O => false
   | S k =>
       match x with
-      | EInt _ _ | EBool _ _ => true
+      | EInt _ _ | EBool _ _ | EStr _ _ => true
       | ERead v _ => memN v sc
       | EBinOp op a b _ => frag_binop op && frag_expr fl k sc a && frag_expr fl k sc b
       | EUniOp _ a _ => frag_expr fl k sc a
@@ -208,7 +208,8 @@ Fixpoint frag_items (pv sv bound : N) (k : nat) (scg : list N) (fl : list (N * n
       end
   end.
 
-(* STAGE 4c' (4c + local functions in ANY statement list: blocks, loop bodies, if-branches; 4c = 4b + LOCAL FUNCTIONS:
+(* STAGE 4d-s (4c' + STRING values: literals, + as concatenation, == != < <= > >=, <=>, print);
+   4c' = 4c + local functions in ANY statement list: blocks, loop bodies, if-branches; 4c = 4b + LOCAL FUNCTIONS:
    closures over the variables of the enclosing function, mutable ones included, called by name, see frag_stmts;
    4b = 4a + outer definitions in any order the resolver allows, also after `start`; 4a = 3b + early return
    `ret e`; 3b = 3a + top-level functions and their calls, recursion included):
@@ -219,7 +220,7 @@ Fixpoint frag_items (pv sv bound : N) (k : nat) (scg : list N) (fl : list (N * n
    f :: fn p1: T1, ..., pn: Tn -> T do ... end  (a function: its body sees the earlier globals, the earlier functions,
    itself and its parameters; its value is the value of its last statement if that is an expression, nil otherwise).
    The body of a function (and the branches of if-expressions anywhere) consists of
-     - definitions (constant or mutable) of int/bool-valued expressions, expression statements, nested blocks,
+     - definitions (constant or mutable) of int/bool/string-valued expressions, expression statements, nested blocks,
      - assignments  x = e, x += e, x -= e, x *= e  to variables in scope (parameters, locals and global values),
      - `ret e` anywhere in a function or in start (inside if-branches and loops too): the call ends with the value of e,
      - in any statement list (a function body, a block, the body of a loop, an if-branch): LOCAL FUNCTIONS
@@ -234,12 +235,13 @@ Fixpoint frag_items (pv sv bound : N) (k : nat) (scg : list N) (fl : list (N * n
      - loops `loop c do ... end` with break and continue; the condition c contains no if-expression
        (noexit_expr; since /repo fcfe8d3 the type checker rejects break/continue in a loop condition, so
        this is implied by acceptance for what matters: no break/continue can leave the condition);
-   expressions are int and bool literals, reads of variables in scope, + - *, the six comparisons,
+   expressions are int, bool and string literals, reads of variables in scope, + - * (+ on two strings concatenates),
+   the six comparisons (on two ints or on two strings: byte-wise lexicographic order),
    <=> (assert-equal), and/or/not, unary minus, calls print(e), calls f(e1, ..., en) of functions by
    name (top-level or local), and if/elif/else expressions and statements whose branches are statement lists.
    NOT in the fragment: `ret` without a value (it returns Sylt's nil, the table __NIL), functions as VALUES
    (a function passed as an argument, returned, stored in a variable or a lambda expression: a function name is only
-   ever called), blobs, tuples, lists, enums/case, floats, strings, division. *)
+   ever called), blobs, tuples, lists, enums/case, floats, division. *)
 Definition frag (k : nat) (r : resolved) : bool :=
   let bound := N.of_nat (length (r_vars r)) + 1 in
   match r_stmts r with
